@@ -6,6 +6,8 @@ mod common;
 mod c01;
 mod c02;
 mod fspace;
+mod c07;
+mod c08;
 mod c09;
 mod frames;
 mod c04;
@@ -98,6 +100,8 @@ fn dispatch(id: &str, ctx: &Ctx, rep: &Report) {
         "C02" => c02::run(ctx, rep),
         "C04" => c04::run(ctx, rep),
         "C05" => c05::run(ctx, rep),
+        "C07" => c07::run(ctx, rep),
+        "C08" => c08::run(ctx, rep),
         "C09" => c09::run(ctx, rep),
         "C13" => c13::run(ctx, rep),
         "C14" => c14::run(ctx, rep),
@@ -116,6 +120,8 @@ fn dispatch_replay(id: &str, w: &serde_json::Value, rep: &Report) {
         "C02" => c02::replay(w, rep),
         "C04" => c04::replay(w, rep),
         "C05" => c05::replay(w, rep),
+        "C07" => c07::replay(w, rep),
+        "C08" => c08::replay(w, rep),
         "C09" => c09::replay(w, rep),
         "C13" => c13::replay(w, rep),
         "C14" => c14::replay(w, rep),
